@@ -386,7 +386,9 @@ pub fn run_c07(ctx: &mut Ctx) {
     // block counts that need a second / third counter byte
     let specs = by_family(Family::Groestl);
     let mut cases = Vec::new();
-    let counts: &[usize] = if ctx.tier == crate::engine::Tier::Quick { &[255, 256, 257] } else { &[255, 256, 257, 65_535, 65_536, 65_537] };
+    // the 2^16-block messages (4-8 MiB each through the reference) only in the full-scale thorough worker
+    let small = ctx.tier == crate::engine::Tier::Quick || ctx.scale < 0.9;
+    let counts: &[usize] = if small { &[255, 256, 257] } else { &[255, 256, 257, 65_535, 65_536, 65_537] };
     for spec in &specs {
         for &nb in counts {
             // total blocks incl. padding = nb: message of nb-1 full blocks + a few bytes
@@ -395,7 +397,7 @@ pub fn run_c07(ctx: &mut Ctx) {
             }
         }
     }
-    if ctx.tier == crate::engine::Tier::Quick {
+    if ctx.tier == crate::engine::Tier::Quick && ctx.scale >= 0.9 {
         // one real crossing of the third counter byte per run (4 MiB resp. 8 MiB), variant rotating with the seed
         let spec = &specs[(ctx.seed % 4) as usize];
         for (nb, extra) in [(65_536usize, 5usize), (65_537, spec.block - 8)] {
@@ -925,7 +927,7 @@ pub fn run_c17(ctx: &mut Ctx) {
     ctx.required_classes.push("absorbed data crosses the targeted boundary".into());
     // real streams
     let mut real = Vec::new();
-    let quick = ctx.tier == crate::engine::Tier::Quick;
+    let quick = ctx.tier == crate::engine::Tier::Quick || ctx.scale < 0.9;
     // Groestl: 2^8 blocks (quick) / 2^16 blocks (thorough) for real: 1 MiB = 16384 64-byte blocks
     for name in ["Groestl224", "Groestl256", "Groestl384", "Groestl512"] {
         real.push(RealStream { hash: name.into(), mib: if quick { 1 } else { 9 }, tail: 77, seed: ctx.seed });
